@@ -108,7 +108,7 @@ def r3(ctx):
     ctx.sub(c04.r3)
 
 
-@rule("C10", "R4", "PURE", "stacking, splitting and padding depend on their arguments only (no module-level tables or caches)", floor=1)
+@rule("C10", "R4", "PURE", "stacking, splitting and padding depend on their arguments only (no module-level tables or caches)", floor=1, evidence=True)
 def r4(ctx):
     ana = ctx.ana
     from .c14 import module_state_writes
